@@ -169,8 +169,13 @@ def impl_call(it, fname, args, kwargs):
         it.raise_("TypeError")          # NumPy: out must be an array (or tuple of arrays)
     it.ctx.events.append(("impl", rec))
     res = SImpl(it, rec)
+    if fname in MIN_RANK_1:
+        it.assume(z3.Not(UD.to_z3(res.scalar)))
     out = (bound or {}).get("out", kwargs.get("out"))
     if out is not None and N.is_array(out):
+        if fname in MIN_RANK_1:       # NumPy refuses an out= of the wrong shape (ValueError)
+            if it.branch(UD.to_z3(N.arr_scalar(out))):
+                it.raise_("ValueError")
         b = N.arr_buf(out)
         b.elem = res.buf.elem
         b.origin = (rec, ())
@@ -188,6 +193,15 @@ def impl_call(it, fname, args, kwargs):
         return None
     return res
 
+
+try:
+    import os as _os, sys as _sys
+    _sys.path.insert(0, _os.path.dirname(_os.path.dirname(_os.path.abspath(__file__))))
+    from spec.numpy_algebra import MIN_RANK_1
+except Exception:          # pragma: no cover
+    MIN_RANK_1 = set()
+assumed("numpy-result-rank", "np.concatenate/stack/vstack/hstack/dstack/column_stack/block/outer/kron "
+        "return arrays with at least one dimension")
 
 INPLACE = {"copyto", "put", "place", "putmask", "fill_diagonal", "put_along_axis"}
 
